@@ -34,6 +34,10 @@ def run(ck: Check, prog: Program) -> None:
             for rule, construct, line, msg in problems:
                 if rule in rules:
                     ck.finding(rule, f'{r.cls.qualname}.<middleware/error-handler wiring>', construct, r.dispatch.module.rel, line, msg)
+    # "the handlers registered for the raised error's code": the code looked up is the code the error was raised with — the error
+    # object keeps a falsy code (0) instead of replacing it by the class default
+    from . import borrow
+    borrow(ck, prog, 'C03', {'VERBATIM-CTOR'}, 'the per-code handler table is indexed by the code the error carries')
 
 
 MUTANTS = [
